@@ -111,3 +111,62 @@ class ReadOnlySource:
 
     def observed_requested(self) -> int:
         return sum(n for n, _ in self._reads)
+
+
+import io as _io
+
+
+class SpyBytesIO(_io.BytesIO):
+    """A genuine io.BytesIO (isinstance checks and C-level fast paths still apply) that records every use of anything other than
+    plain sequential read(n) / write(b): seek, tell, getvalue, getbuffer, truncate, readinto, read1, readline, peek-like access."""
+
+    def __init__(self, data: bytes = b"") -> None:
+        super().__init__(data)
+        self.spy_events: list = []
+
+    def _note(self, name: str, *a: object) -> None:
+        self.spy_events.append((name,) + tuple(a))
+
+    def seek(self, *a):  # noqa: ANN002, ANN201
+        self._note("seek", *a)
+        return super().seek(*a)
+
+    def tell(self):  # noqa: ANN201
+        self._note("tell")
+        return super().tell()
+
+    def getvalue(self):  # noqa: ANN201
+        self._note("getvalue")
+        return super().getvalue()
+
+    def getbuffer(self):  # noqa: ANN201
+        self._note("getbuffer")
+        return super().getbuffer()
+
+    def truncate(self, *a):  # noqa: ANN002, ANN201
+        self._note("truncate", *a)
+        return super().truncate(*a)
+
+    def readinto(self, b):  # noqa: ANN001, ANN201
+        self._note("readinto")
+        return super().readinto(b)
+
+    def read1(self, *a):  # noqa: ANN002, ANN201
+        self._note("read1", *a)
+        return super().read1(*a)
+
+    def readline(self, *a):  # noqa: ANN002, ANN201
+        self._note("readline", *a)
+        return super().readline(*a)
+
+    def read(self, n=-1):  # noqa: ANN001, ANN201
+        if n is None or n < 0:
+            self._note("read-all", n)
+        return super().read(n)
+
+    # observer side: these do not record
+    def observed_position(self) -> int:
+        return _io.BytesIO.tell(self)
+
+    def observed_bytes(self) -> bytes:
+        return _io.BytesIO.getvalue(self)
